@@ -39,6 +39,8 @@ from fractions import Fraction
 import numpy as np
 
 ID = "C15"
+# computational entry points whose results are watched by the engine's retained-result oracle (mc/explore.py)
+RETAIN = [('hydrodiy.gis.gutils', 'points_inside_polygon'), ('hydrodiy.gis.grid', 'Grid.cells_inside_polygon')]
 TECHNIQUE = ("bounded exhaustive enumeration of lattice polygons x query lattice x transforms on the real "
              "points_inside_polygon / cells_inside_polygon, judged by an exact integer even-odd oracle")
 RULE = ("every vertex sequence of length n over {0..K}^2 (tier bound), open and closed form, x every point of "
